@@ -13,21 +13,23 @@ import (
 
 // Result codes used by the model and by the translation of real results.
 const (
-	rOK       = "OK"
-	rExist    = "EXIST"
-	rNoEnt    = "NOENT"
-	rIsDir    = "ISDIR"
-	rNotDir   = "NOTDIR"
-	rNotEmpty = "NOTEMPTY"
-	rPerm     = "PERM"
-	rStale    = "STALE"
-	rSymlink  = "SYMLINK"
-	rXDev     = "XDEV"
-	rInval    = "INVAL"
-	rNXIO     = "NXIO"
-	rIO       = "IO"       // Virtual* calls: lazy initialisation / allocator / symlink factory failed
-	rFetchErr = "FETCHERR" // worker-facing calls: the fetcher's error is passed through
-	rLazyFail = "LAZYFAIL" // model-internal; translated per API family
+	rOK        = "OK"
+	rExist     = "EXIST"
+	rNoEnt     = "NOENT"
+	rIsDir     = "ISDIR"
+	rNotDir    = "NOTDIR"
+	rNotEmpty  = "NOTEMPTY"
+	rPerm      = "PERM"
+	rStale     = "STALE"
+	rSymlink   = "SYMLINK"
+	rXDev      = "XDEV"
+	rInval     = "INVAL"
+	rNXIO      = "NXIO"
+	rAccess    = "ACCESS"
+	rWrongType = "WRONGTYPE"
+	rIO        = "IO"       // Virtual* calls: lazy initialisation / allocator / symlink factory failed
+	rFetchErr  = "FETCHERR" // worker-facing calls: the fetcher's error is passed through
+	rLazyFail  = "LAZYFAIL" // model-internal; translated per API family
 	// rLazyCollide (model-internal): the fetcher succeeded but two of the
 	// names it returned collide under the normaliser; Virtual* calls answer
 	// EIO, worker-facing calls pass the InvalidArgument error on.
@@ -59,6 +61,21 @@ type mNode struct {
 	tag      string // symlink target
 	realLeaf virtual.Leaf
 	leafIdx  int
+
+	// Named attributes (NFSv4 OPENATTR). na is the kind of NamedAttributes
+	// object the real node embeds, decided when the node is first attached:
+	// "mem" (in-memory named attributes: regular files and directories of the
+	// ordinary tree), "attr" (the node lives in a named attribute directory:
+	// OPENATTR answers WRONG_TYPE) or "none" (symlinks, FIFOs, sockets:
+	// ACCESS / NOENT). attrDir is the node's named attribute directory once
+	// OPENATTR(createdir=true) made it; attrOwner points back from that
+	// directory. fsAttr: the node lives in the file system of the named
+	// attribute directories, which is always case sensitive and has no hidden
+	// files pattern (NewInMemoryNamedAttributesFactory).
+	na        string
+	attrDir   *mNode
+	attrOwner *mNode
+	fsAttr    bool
 }
 
 func (n *mNode) stateful() bool { return !n.dir && n.kind != "symlink" }
@@ -96,11 +113,16 @@ type mModel struct {
 	// All nodes ever created.
 	dirs   []*mNode
 	leaves []*mNode
+	// Named attribute directories that went away with their owner.
+	naReleased         int
+	naReleasedNonEmpty int
+	naReleasedOfFile   int
 }
 
 func newModel(caseFold, hiddenOn, internSymlinks bool) *mModel {
 	m := &mModel{caseFold: caseFold, hiddenOn: hiddenOn, internSymlinks: internSymlinks, changed: map[*mNode]bool{}, inited: map[*mNode]bool{}}
 	m.root = m.newDir(nil)
+	m.root.na = "mem"
 	return m
 }
 
@@ -119,6 +141,64 @@ func (m *mModel) norm(name string) string {
 
 func (m *mModel) isHiddenName(name string) bool {
 	return m.hiddenOn && vdHiddenMatcher(name)
+}
+
+// normIn is the normalised form of a name in directory d: the file system
+// of the named attribute directories is always case sensitive.
+func (m *mModel) normIn(d *mNode, name string) string {
+	if d.fsAttr {
+		return name
+	}
+	return m.norm(name)
+}
+
+// newAttrDir creates the named attribute directory of owner.
+func (m *mModel) newAttrDir(owner *mNode) *mNode {
+	a := m.newDir(nil)
+	a.na = "attr"
+	a.fsAttr = true
+	a.attrOwner = owner
+	owner.attrDir = a
+	return a
+}
+
+// releaseAttrDir is what NamedAttributes.Release() does when the owner's
+// last reference goes: the named attribute directory is emptied recursively
+// and tombstoned.
+func (m *mModel) releaseAttrDir(owner *mNode) {
+	a := owner.attrDir
+	if a == nil || a.deleted {
+		return
+	}
+	m.naReleased++
+	if !owner.dir {
+		m.naReleasedOfFile++
+	}
+	if !a.uninit && len(a.ents) > 0 {
+		m.naReleasedNonEmpty++
+	}
+	m.removeAllChildren(a, true)
+}
+
+// opOpenNamedAttributes models VirtualOpenNamedAttributes on a node that
+// still exists (a file with a link, a directory that was not removed).
+func (m *mModel) opOpenNamedAttributes(owner *mNode, createDirectory bool) ([]string, *mNode) {
+	switch owner.na {
+	case "attr":
+		return one(rWrongType), nil
+	case "mem":
+		if owner.attrDir != nil {
+			return one(rOK), owner.attrDir
+		}
+		if !createDirectory {
+			return one(rNoEnt), nil
+		}
+		return one(rOK), m.newAttrDir(owner)
+	}
+	if createDirectory {
+		return one(rAccess), nil
+	}
+	return one(rNoEnt), nil
 }
 
 func (m *mModel) newDir(fetcher *vdFetcher) *mNode {
@@ -153,7 +233,7 @@ func (m *mModel) newSymlink(target string) *mNode {
 }
 
 func (m *mModel) lookup(d *mNode, name string) *mEnt {
-	norm := m.norm(name)
+	norm := m.normIn(d, name)
 	for _, e := range d.ents {
 		if e.norm == norm {
 			return e
@@ -167,8 +247,21 @@ func (m *mModel) attach(d *mNode, name string, child *mNode) *mEnt {
 		panic("vfsdir model: attach to deleted directory or over existing name")
 	}
 	m.nextEID++
-	e := &mEnt{eid: m.nextEID, name: name, norm: m.norm(name), child: child, born: m.tick, died: -1, dir: d}
-	e.hidden = !child.dir && m.isHiddenName(name)
+	e := &mEnt{eid: m.nextEID, name: name, norm: m.normIn(d, name), child: child, born: m.tick, died: -1, dir: d}
+	e.hidden = !child.dir && !d.fsAttr && m.isHiddenName(name)
+	if child.na == "" {
+		// First attachment: the node was created by (or for) this directory's
+		// subtree, which decides the kind of named attributes it carries.
+		switch {
+		case !child.dir && child.kind != "file":
+			child.na = "none"
+		case d.fsAttr:
+			child.na = "attr"
+		default:
+			child.na = "mem"
+		}
+		child.fsAttr = d.fsAttr
+	}
 	d.ents = append(d.ents, e)
 	d.history = append(d.history, e)
 	if child.dir {
@@ -198,6 +291,10 @@ func (m *mModel) unlink(n *mNode) {
 		panic("vfsdir model: unlink of a leaf with link count zero")
 	}
 	n.nlink--
+	if n.nlink == 0 {
+		// No open outlives a step, so the last link is the last reference.
+		m.releaseAttrDir(n)
+	}
 }
 
 // need makes the contents of d available, the way getContents() does. It
@@ -282,6 +379,7 @@ func (m *mModel) markDeleted(d *mNode) {
 		m.unlink(e.child)
 	}
 	d.deleted = true
+	m.releaseAttrDir(d)
 }
 
 // removeAllChildren is the recursive bulk removal.
@@ -323,12 +421,25 @@ func (m *mModel) isAncestorOrSelf(anc, d *mNode) bool {
 func (m *mModel) liveDirCount() int {
 	n := 0
 	for _, d := range m.dirs {
-		if d.deleted {
+		if d.deleted || d.fsAttr {
 			continue
 		}
 		n++
 		if d.uninit && d.fetcher != nil {
 			n += d.fetcher.spec.dirCount()
+		}
+	}
+	return n
+}
+
+// liveAttrDirCount counts the directories of the named attribute file
+// system that are not tombstoned (attribute directories and directories made
+// inside them).
+func (m *mModel) liveAttrDirCount() int {
+	n := 0
+	for _, d := range m.dirs {
+		if d.fsAttr && !d.deleted {
+			n++
 		}
 	}
 	return n
